@@ -247,6 +247,10 @@ static void update_statistics_float(carquet_page_writer_t* writer,
                                      const float* values, int64_t count) {
     for (int64_t i = 0; i < count; i++) {
         float v = values[i];
+        if (v != v) {
+            /* NaN is unordered: it can never be a bound (Parquet keeps NaN out of min/max) */
+            continue;
+        }
         if (!writer->has_min_max) {
             memcpy(writer->min_value, &v, sizeof(v));
             memcpy(writer->max_value, &v, sizeof(v));
@@ -266,6 +270,10 @@ static void update_statistics_double(carquet_page_writer_t* writer,
                                       const double* values, int64_t count) {
     for (int64_t i = 0; i < count; i++) {
         double v = values[i];
+        if (v != v) {
+            /* NaN is unordered: it can never be a bound (Parquet keeps NaN out of min/max) */
+            continue;
+        }
         if (!writer->has_min_max) {
             memcpy(writer->min_value, &v, sizeof(v));
             memcpy(writer->max_value, &v, sizeof(v));
